@@ -395,11 +395,17 @@ __get_dir(struct dt_dt_s d, const struct dseq_clo_s *clo)
 		struct dt_dt_s tmp = __seq_next(d, clo);
 		return dt_dtcmp(tmp, d);
 	}
-	if (clo->ite->dv > 0) {
-		return 1;
-	} else if (clo->ite->dv < 0) {
-		return -1;
+	with (struct dt_dt_s tmp = date_add(d, clo->ite, clo->nite)) {
+		/* trial addition again, midnights passed are in d.u */
+		const int32_t c = (int32_t)tmp.d.u - (int32_t)d.d.u;
+
+		if (c > 0 || (c == 0 && tmp.t.u > d.t.u)) {
+			return 1;
+		} else if (c < 0 || (c == 0 && tmp.t.u < d.t.u)) {
+			return -1;
+		}
 	}
+	/* increment doesn't move a time */
 	return 0;
 }
 
@@ -683,7 +689,8 @@ cannot convert calendric system internally");
 		}
 		rc = 1;
 		goto out;
-	} else if (dt_sandwich_only_t_p(clo.fst) && clo.ite->dv == 0) {
+	} else if (dt_sandwich_only_t_p(clo.fst) &&
+		   argi->nargs < 3U && clo.ite->dv == 0) {
 		*clo.ite = tseq_guess_ite(clo.fst.t, clo.lst.t);
 	}
 
